@@ -735,7 +735,13 @@ impl<'a> Evaluator<'a> {
                     return Ok(Val::Unit);
                 }
                 let l = self.eval(&b.left, env)?;
+                if matches!(&l, Val::Ctor(n, _, _) if n == "$return") {
+                    return Ok(l); // `a? + b`: the early return of an operand is the result
+                }
                 let r = self.eval(&b.right, env)?;
+                if matches!(&r, Val::Ctor(n, _, _) if n == "$return") {
+                    return Ok(r);
+                }
                 match (&l, &r) {
                     (Val::Int { v: x, input: i1 }, Val::Int { v: y, input: i2 }) => {
                         if *i1 && !*i2 {
@@ -1062,6 +1068,9 @@ impl<'a> Evaluator<'a> {
             }
             Expr::MethodCall(mc) => {
                 let recv = self.eval(&mc.receiver, env)?;
+                if matches!(&recv, Val::Ctor(n, _, _) if n == "$return") {
+                    return Ok(recv); // `x?.method()`: the early return propagates
+                }
                 let name = mc.method.to_string();
                 let is_some = matches!(&recv, Val::Ctor(n, ..) if n == "Some");
                 let is_none = matches!(&recv, Val::Ctor(n, ..) if n == "None");
@@ -1287,6 +1296,15 @@ impl<'a> Evaluator<'a> {
                         }
                         "is_empty" => return Ok(Val::Bool(st.is_empty())),
                         "len" => return Ok(Val::int(st.len() as i128)),
+                        "get" if mc.args.len() == 1 && matches!(&mc.args[0], syn::Expr::Range(_)) => {
+                            // `s.get(a..b)`: None when out of range or not on a char boundary
+                            if let syn::Expr::Range(r) = &mc.args[0] {
+                                let int = |v: Val| match v { Val::Int { v, .. } if v >= 0 => Ok(v as usize), o => Err(format!("string index {}", o.show())) };
+                                let lo = match &r.start { Some(e) => int(self.eval(e, env)?)?, None => 0 };
+                                let hi = match &r.end { Some(e) => int(self.eval(e, env)?)? + if matches!(r.limits, syn::RangeLimits::Closed(_)) { 1 } else { 0 }, None => st.len() };
+                                return Ok(if lo <= hi && hi <= st.len() && st.is_char_boundary(lo) && st.is_char_boundary(hi) { Val::some(Val::Str(st[lo..hi].to_string())) } else { Val::none() });
+                            }
+                        }
                         "lines" if mc.args.is_empty() => return Ok(Val::List(st.lines().map(|l| Val::Str(l.to_string())).collect())),
                         "char_indices" if mc.args.is_empty() => return Ok(Val::List(st.char_indices().map(|(i, c)| Val::Tuple(vec![Val::int(i as i128), Val::Char(c)])).collect())),
                         "trim" if mc.args.is_empty() => return Ok(Val::Str(st.trim().to_string())),
